@@ -864,6 +864,9 @@ def gen_pair(rng, tier):
                     binders=[['var', k] for k in sorted((x, z))], sel=[['var', x]],
                     cond=['or', conj, other, rng.choice(['fn', 'op'])] if rng.random() < 0.8 else ['or', other, conj, 'fn'],
                     form=rng.choice(['entity', 'set_of']))
+    if rng.random() < 0.15:
+        # projections over deeply nested and_/or_ (what an operator drops as a duplicate depends on how the query is written)
+        orig = gen_case_dedup(rng, tier)
     var = dict(orig)
     var['cond'] = rewrite_cond(rng, orig['cond']) if orig['cond'] is not None else None
     if var['cond'] is not None and var['cond'][0] == 'and' and rng.random() < 0.2:
